@@ -5,6 +5,7 @@ import GrVerif.Model.ClassMap
 import GrVerif.Model.SilfLoad
 import GrVerif.Model.CodeLoad
 import GrVerif.Model.RulesLoad
+import GrVerif.Model.GlyphLoad
 namespace Driver.Loader
 open GrVerif.Loader Driver
 
@@ -154,10 +155,39 @@ def stepCode (ws : List String) : String :=
         s!"ok ic={p.instrs.length} ds={p.dataSize} mr={p.maxRef} mod={if p.modify then 1 else 0} del={if p.delete then 1 else 0} I:{String.intercalate "," (ops.map toString)} D:{digest data}"
   | _, _ => "bad-op"
 
+/-- `glyphs <options> <chunk bits> <numGlyphsGraphics> <Gloc hex> <Glat hex> <gid,…> <key,…>` : `GlyphCache` -/
+def stepGlyphs (ws : List String) : String :=
+  match ws with
+  | [opts, cb, ngg, h1, h2, gids, keys] =>
+    match opts.toNat?, cb.toNat?, ngg.toNat?, parseHexUnits 2 h1, parseHexUnits 2 h2 with
+    | some opts, some cb, some ngg, some gloc, some glat =>
+      if cb ≠ chunkBits then "bad-op" else
+      let gl := glat.toList
+      -- not the subject here: a Glat table that `Face::Table` has to decompress first (C14)
+      if gl.length ≥ 8 ∧ ((gl.getD 0 0 * 256 + gl.getD 1 0) * 256 + gl.getD 2 0) * 256 + gl.getD 3 0 ≥ 0x00030000 ∧ gl.getD 4 0 / 8 ≠ 0 then "compressed" else
+      let gids := (gids.splitOn ",").filterMap String.toNat?
+      let keys := (keys.splitOn ",").filterMap String.toNat?
+      match glyphCache gloc.toList glat.toList ngg ((opts / 2) % 2 = 1) gids with
+      | .error _ => "fault"
+      | .ok none => "noglyphs"
+      | .ok (some c) =>
+        let showG (g : GlyphAns) : String := match g with
+          | .noSuch => "-"
+          | .notLoaded => "F"
+          | .loaded sp bx =>
+            let ch := sp.chunks.flatMap fun (c : Chunk) => [c.mask % 16777216, (c.mask / 16777216) % 16777216, c.offset]
+            let looks := keys.map fun k => match sp.get (k % 65536) with | .ok v => toString v | .error _ => "fault"
+            let b := match bx with | some (bm, n) => s!"{n},{bm}" | none => "-"
+            s!"n={sp.nchunks} C:{digest ch} V:{digest (sp.values.take sp.capacity)} L:{String.intercalate "," looks} B:{b}"
+        String.intercalate " | " (s!"ok {c.numGlyphs} {c.numAttrs} {if c.hasBoxes then 1 else 0}" :: c.glyphs.map showG)
+    | _, _, _, _, _ => "bad-op"
+  | _ => "bad-op"
+
 def step (line : String) : String :=
   match words line with
   | "classmap" :: rest => stepClassMap rest
   | "code" :: rest => stepCode rest
+  | "glyphs" :: rest => stepGlyphs rest
   | "silf" :: rest => stepSilf rest
   | "silftable" :: rest => stepSilfTable rest
   | "sfnt" :: rest => stepSfnt rest
